@@ -9,3 +9,9 @@ import TypedpyModel.Props.C02
 #print axioms Typedpy.C02.enum_name_reads_member
 #print axioms Typedpy.C02.immutableSet_reads_frozenset
 #print axioms Typedpy.C02.decision_example
+#print axioms Typedpy.C02.fmtMatch_formatOracles
+#print axioms Typedpy.C02.string_field_exact
+#print axioms Typedpy.C02.ipv4_field_exact
+#print axioms Typedpy.C02.hostname_field_exact
+#print axioms Typedpy.C02.sized_string_bound
+#print axioms Typedpy.C02.format_example
